@@ -323,6 +323,7 @@ def run(ctx: common.Run):
         ctx.report_unproved('lean-build', f'{failing}', {'theorem_or_correspondence': failing})
         return
     check_rules(ctx, cirq)
+    check_symbolized_merge(ctx, cirq)
     check_gauges(ctx, cirq)
     check_qudit_passes(ctx, cirq)
     n = 40 if ctx.tier == 'quick' else 600
@@ -514,6 +515,69 @@ class MMWrap:
 
     def __call__(self, circuit, prng=None):
         return self.t(circuit, rng_or_seed=prng)
+
+
+def check_symbolized_merge(ctx, cirq):
+    """merge_single_qubit_gates_to_phxz_symbolized: for every point of the sweep, the returned circuit resolved with the returned
+    sweep has the unitary of the input resolved with the input sweep (symbols may be shared between gates of any size)"""
+    import sympy
+
+    rng = ctx.substream('symbolized-merge')
+    n = 25 if ctx.tier == 'quick' else 400
+    syms = [sympy.Symbol(x) for x in 'tuv']
+    for it in range(n):
+        qs = cirq.LineQubit.range(rng.choice([2, 2, 3]))
+        ops = []
+        for _ in range(rng.randint(2, 7)):
+            r = rng.random()
+            q = rng.choice(qs)
+            e = rng.choice(syms) if rng.random() < 0.5 else round(rng.uniform(-1, 1), 3)
+            if r < 0.6:
+                ops.append(rng.choice([cirq.X, cirq.Y, cirq.Z])(q) ** e)
+            else:
+                a, b = rng.sample(list(qs), 2)
+                ops.append(rng.choice([cirq.CZ, cirq.CZ, cirq.ISWAP, cirq.CNOT])(a, b) ** e)
+        if it == 0:
+            t = syms[0]
+            ops = [cirq.X(qs[0]) ** t, cirq.CZ(qs[0], qs[1]) ** t, cirq.Y(qs[0]) ** 0.3]  # corpus: one symbol in gates of both sizes
+        circuit = cirq.Circuit(ops)
+        used = sorted(cirq.parameter_names(circuit))
+        if not used:
+            continue
+        npts = rng.choice([1, 2, 3])
+        form = rng.choice(['zip', 'product', 'list'])
+        if form == 'zip' or len(used) == 1:
+            sweep = cirq.Zip(*[cirq.Points(k, [round(rng.uniform(-1, 1), 3) for _ in range(npts)]) for k in used])
+        elif form == 'product':
+            sweep = cirq.Product(*[cirq.Points(k, [round(rng.uniform(-1, 1), 3) for _ in range(rng.choice([1, 2]))]) for k in used])
+        else:
+            sweep = cirq.ListSweep([cirq.ParamResolver({k: round(rng.uniform(-1, 1), 3) for k in used}) for _ in range(npts)])
+        rep = {'lines': [{'transformer': 'merge_single_qubit_gates_to_phxz_symbolized', 'circuit': repr(circuit), 'sweep': repr(sweep)}], 'theorem_or_correspondence': 'Lean reference semantics (C01)'}
+        before = circuit.copy()
+        try:
+            nc, ns = cirq.merge_single_qubit_gates_to_phxz_symbolized(circuit, sweep=sweep)
+        except (ValueError, TypeError, NotImplementedError) as e:
+            ctx.count('transformer_error', f'symbolized-merge:{type(e).__name__}:{str(e)[:30]}')
+            continue
+        ctx.count('check', 'symbolized-merge')
+        ctx.case(['symbolized-merge', repr(circuit), repr(sweep)], True)
+        old_r, new_r = list(cirq.to_resolvers(sweep)), list(cirq.to_resolvers(ns))
+        if len(old_r) != len(new_r):
+            ctx.report_witness('symbolized-merge:sweep-length', 'the returned sweep has a different number of points', dict(rep, impl_out=[len(new_r)], spec_out=[len(old_r)]))
+            continue
+        for ro, rn in zip(old_r, new_r):
+            want = lean_unitary(ctx, cirq, cirq.resolve_parameters(circuit, ro), list(qs))
+            rc = cirq.resolve_parameters(nc, rn)
+            if cirq.is_parameterized(rc):
+                ctx.report_witness('symbolized-merge:unresolved', 'the returned sweep does not resolve the returned circuit', dict(rep, impl_out=[repr(nc)[:1500], repr(rn)], spec_out=['resolved']))
+                break
+            got = lean_unitary(ctx, cirq, rc, list(qs))
+            if got.shape != want.shape or not phase_close(got, want, 1e-6):
+                ctx.report_witness('symbolized-merge:unitary', 'a point of the returned sweep gives a circuit with a different unitary than the input at that point',
+                                   dict(rep, impl_out=[repr(nc)[:1500], repr(rn)[:400]], spec_out=['the unitary of the input resolved with ' + repr(ro)[:300]]))
+                break
+        if circuit != before:
+            ctx.report_witness('mutated-input:symbolized-merge', 'the transformer modified its argument', dict(rep, impl_out=[repr(circuit)[:1500]], spec_out=[repr(before)[:1500]]))
 
 
 def check_gauges(ctx, cirq):
